@@ -173,6 +173,28 @@ func init() {
 		}
 		return nil
 	})
+	// vletters: keeps the ASCII letters of the value and hands the result back in one of the context's PUBLIC buffers
+	// (*buf = &ctx.Buf), as a user's modifier may (Go-only checks of C11)
+	dyntpl.RegisterModFn("vletters", "", func(ctx *dyntpl.Ctx, buf *any, val any, args []any) error {
+		ctx.Buf.Reset()
+		b, err := x2bytes.ToBytes(nil, val)
+		if err != nil {
+			return err
+		}
+		for _, c := range b {
+			if c >= 'a' && c <= 'z' || c >= 'A' && c <= 'Z' {
+				ctx.Buf.WriteByte(c)
+			}
+		}
+		*buf = &ctx.Buf
+		return nil
+	})
+	// vacqbad: asks the context for an object of a pool that is not registered (the error goes back to the print tag)
+	dyntpl.RegisterModFn("vacqbad", "", func(ctx *dyntpl.Ctx, buf *any, val any, args []any) error {
+		_, err := ctx.AcquireFrom("vnosuchpool")
+		evAdd("acqbad")
+		return err
+	})
 	dyntpl.RegisterModFn("vfail", "", func(ctx *dyntpl.Ctx, buf *any, val any, args []any) error { return errUserFail })
 	dyntpl.RegisterCondFn("veq", func(ctx *dyntpl.Ctx, args []any) bool {
 		if len(args) < 2 {
@@ -539,8 +561,12 @@ func entryID(key string) int {
 func (c *RCase) Run() {
 	dyntpl.VerifResetRegistry()
 	c.Dumps = c.Dumps[:0]
+	var trees []*dyntpl.Tree
 	for _, t := range c.Tpls {
-		tree, err, pan := parseSafe([]byte(t.Src), t.KeepFmt)
+		// the source is handed to Parse in a buffer of the caller's, which the caller overwrites afterwards (a loader
+		// reading many templates through one buffer): the tree must not depend on that buffer any more
+		srcBuf := []byte(t.Src)
+		tree, err, pan := parseSafe(srcBuf, t.KeepFmt)
 		if pan != "" {
 			c.Panic = "parse: " + pan
 			return
@@ -554,6 +580,15 @@ func (c *RCase) Run() {
 			dyntpl.RegisterTplID(entryID(t.Key), tree)
 		}
 		c.Dumps = append(c.Dumps, string(dyntpl.VerifDumpTree(tree)))
+		for i := range srcBuf {
+			srcBuf[i] = '#'
+		}
+		trees = append(trees, tree)
+	}
+	for i, tree := range trees {
+		if d := string(dyntpl.VerifDumpTree(tree)); d != c.Dumps[i] {
+			c.Mutated = append(c.Mutated, fmt.Sprintf("the tree of template %s changed when the caller overwrote the buffer it had passed to Parse(src, keepFmt=%v)", c.Tpls[i].Key, c.Tpls[i].KeepFmt))
+		}
 	}
 	ctx := dyntpl.NewCtx()
 	if c.Pool {
@@ -714,7 +749,7 @@ func resultFields(s string) (status string, out []byte, writes string, log strin
 var (
 	intPool   = []int64{0, 1, -1, 2, 3, 5, 7, 10, 42, -17, 100, 127, 128, 255, 256, 1000, math.MaxInt32, math.MinInt32, math.MaxInt64, math.MinInt64}
 	uintPool  = []uint64{0, 1, 2, 3, 5, 10, 42, 255, 256, 65535, math.MaxUint32, math.MaxUint64}
-	floatPool = []float64{0, 1, -1, 0.5, -0.5, 2.25, 3.1415, 9000.015, -3.0000342543, 14.345241, 100, 1e6, 0.001, 123456.789, 1e-12, -2.5e-10}
+	floatPool = []float64{0, math.Copysign(0, -1), 1, -1, 0.5, -0.5, 2.25, 3.1415, 9000.015, -3.0000342543, 14.345241, 100, 1e6, 0.001, 123456.789, 1e-12, -2.5e-10}
 	strPool   = []string{"", " ", "\t ", "\u00a0", "a", "b", "abc", "John", "x y", "<b>", "\"q\"", "it's", "a&b", "10", "-5", "3.5", "true", "Z", "abd", "ab", "é", "日本", "a/b?c=d"}
 )
 
